@@ -84,9 +84,23 @@ def check_parts(s, got, exp, nl_pos_end):
             require(g.pos_end is not None and p1 <= g.pos_end <= nl_pos_end, 'part end position is wrong')
 
 
-def body_split(s, sepname, keep_empty, ms):
-    """ms: -1 -> None"""
+def body_split_all(s, sepname):
+    """one parse, then every combination of keep_empty x max_split in {None,0,1,2}"""
     nl = get_list(s)
+    if nl is None or len(nl) == 0:
+        return False
+    r = False
+    for keep_empty in (True, False):
+        for ms in (-1, 0, 1, 2):
+            if body_split(s, sepname, keep_empty, ms, nl):
+                r = True
+    return r
+
+
+def body_split(s, sepname, keep_empty, ms, nl=None):
+    """ms: -1 -> None"""
+    if nl is None:
+        nl = get_list(s)
     if nl is None or len(nl) == 0:
         return False
     sep_obj, sep_txt = SEPS[sepname]
@@ -213,25 +227,22 @@ def conditions(tier):
     quick = tier == 'quick'
     T = 600 if quick else 3000
     conds = []
-    P = 's: str, keep_empty: bool, ms: int'
-    MS = '-1 <= ms <= 2'
-    SM = [dict(s=x, keep_empty=k, ms=m) for x in ('a,b', ',a,,b,', 'a{,}b,c', 'a, b', ',', 'a;b;;') for k in (True, False)
-          for m in (-1, 0, 1)]
+    P = 's: str'
+    SM = [dict(s=x) for x in ('a,b', ',a,,b,', 'a{,}b,c', 'a, b', ',', 'a;b;;')]
     for sn in SEPS:
-        conds.append(Cond('split_%s_le2' % sn, P, ['len(s) <= 2', MS], 'body_split(s, %r, keep_empty, ms)' % sn, timeout=T,
+        conds.append(Cond('split_%s_le2' % sn, P, ['len(s) <= 2'], 'body_split_all(s, %r)' % sn, timeout=T,
                           smoke=SM, twin=False))
-    skels = [('mid', '?,?,?'), ('edges', ',?,'), ('double', '?,,?'), ('group', '?{,}?,?'), ('macro', BS + 'a{,},?'),
-             ('comment', '?%,\n,?'), ('sp', '?, ?,?'), ('lead', ',,?'), ('callsep', '?;?;')]
+    skels = [('mid', '?,?,x'), ('mid2', 'x,?,?'), ('edges', ',?,'), ('double', '?,,?'), ('group', '?{,}x,?'), ('macro', BS + 'a{,},?'),
+             ('comment', '?%,\n,?'), ('sp', '?, ?,x'), ('lead', ',,?'), ('callsep', '?;?;')]
     for nm, sk in skels:
         for sn in (['comma', 'rx'] if nm != 'callsep' else ['call']) + (['commasp'] if nm == 'sp' else []):
-            conds.append(Cond('split_%s_%s' % (sn, nm), P, skel_pre(sk) + [MS], 'body_split(s, %r, keep_empty, ms)' % sn,
-                              timeout=T, cost=2, twin=False,
-                              smoke=[dict(s=skel_fill(sk), keep_empty=k, ms=m) for k in (True, False) for m in (-1, 1)]))
+            conds.append(Cond('split_%s_%s' % (sn, nm), P, skel_pre(sk), 'body_split_all(s, %r)' % sn,
+                              timeout=T, cost=2, twin=False, smoke=[dict(s=skel_fill(sk))]))
     if not quick:
         for sn in SEPS:
-            conds.append(Cond('split_%s_eq3' % sn, P, ['len(s) == 3', MS], 'body_split(s, %r, keep_empty, ms)' % sn,
+            conds.append(Cond('split_%s_eq3' % sn, P, ['len(s) == 3'], 'body_split_all(s, %r)' % sn,
                               timeout=T * 2, cost=4, twin=False))
-    conds.append(Cond('splitnode', 's: str, ms: int', skel_pre('?{?}?{}?') + [MS], 'body_split_node(s, ms)', timeout=T,
+    conds.append(Cond('splitnode', 's: str, ms: int', skel_pre('?{?}?{}?') + ['-1 <= ms <= 2'], 'body_split_node(s, ms)', timeout=T,
                       smoke=[dict(s='a{b}c{}d', ms=m) for m in (-1, 0, 1, 2)], twin=False))
     for pol in ('concatenate', 'first', 'last', 'error'):
         for nm, sk in [('two', '?=?,?=?'), ('rep', 'a=?,a=?'), ('noval', '?,?=?'), ('eqeq', '?=?=?')]:
@@ -246,8 +257,8 @@ META = dict(
                'LatexNodeList.split_at_node', 'LatexNodeList.parse_keyval_content / get_content_as_chars',
                'strict parser under a compact context (produces the node lists)'],
     bounds=dict(quick='node lists parsed from every Unicode string of length <= 2 and from 9 skeletons (separators leading, trailing, '
-                      'doubled, inside a group, inside a macro argument, inside a comment) with free holes; keep_empty symbolic, '
-                      'max_split in {None,0,1,2} symbolic; 4 separator kinds; key-value templates with alphanumeric holes x 4 '
+                      'doubled, inside a group, inside a macro argument, inside a comment) with free holes; every combination of keep_empty and '
+                      'max_split in {None,0,1,2}; 4 separator kinds; key-value templates with alphanumeric holes x 4 '
                       'repeated-key policies',
                 thorough='plus every string of length 3 for each separator kind'),
     stubs=['logging disabled', 'step budget'],
